@@ -39,6 +39,27 @@ func genRsm(r *Rng, tier string) *Enc {
 		}
 		ts[i] = t
 	}
+	// one frame mixing two locations: equal wall clocks in different zones are different buckets. Only UTC / +05:30
+	// with Y, M, D or H, where no two distinct bucket starts are the same instant (the order of such a pair is not
+	// determined by the property)
+	mixed := r.Chance(8)
+	if mixed {
+		for i := range ts {
+			if t, ok := ts[i].(time.Time); ok {
+				wall := time.Date(t.Year(), t.Month(), t.Day(), t.Hour(), t.Minute(), t.Second(), t.Nanosecond(), Pick(r, []*time.Location{time.UTC, zonePlus}))
+				ts[i] = wall
+			}
+		}
+	}
+	// one bucket with more than 1024 rows
+	long := r.Intn(120) == 0
+	if long {
+		n = Pick(r, []int{1100, 3000})
+		ts = make([]any, n)
+		for i := range ts {
+			ts[i] = base.Add(time.Duration(i) * time.Minute)
+		}
+	}
 	wrong := r.Chance(6)
 	if wrong && n > 0 {
 		ts[r.Intn(n)] = Pick(r, []any{nil, 5, "2020-01-01"})
@@ -57,6 +78,15 @@ func genRsm(r *Rng, tier string) *Enc {
 		freq = Pick(r, []string{"Q", "", "W", "d"})
 	}
 	agg := r.Intn(5)
+	if mixed && !r.Chance(6) {
+		freq = Pick(r, []string{"Y", "M", "D", "H"})
+	} else if mixed {
+		freq = "Q"
+	}
+	if long {
+		freq = Pick(r, []string{"M", "D", "Y"})
+		agg = Pick(r, []int{0, 4, 0, 1})
+	}
 	e.Tok("F")
 	e.Frame(df)
 	e.Str(col)
